@@ -41,6 +41,12 @@ type c38Act struct {
 	Tok    int
 	Dur    int // seconds
 	N      int
+	// second cookie of the same name (c38CkPair) and its position
+	Cookie2 int
+	Tok2    int
+	Swap    bool
+	Probe   bool // logout: follow up with a protected request carrying the same cookies
+	Hdr     int  // proxy-style request headers (see c38Headers)
 }
 
 const (
@@ -51,9 +57,32 @@ const (
 	c38CkMangled
 	c38CkTokenPlusNoise
 	c38CkEmpty
+	c38CkPair // two cookies named kafscale_ui_session in one request
 )
 
-var c38Addrs = []string{"10.0.0.1", "10.0.0.2", "192.168.7.9", "[2001:db8::1]"}
+// peer addresses: private, loopback, public (IPv4 and IPv6)
+var c38Addrs = []string{"10.0.0.1", "10.0.0.2", "192.168.7.9", "[2001:db8::1]", "127.0.0.1", "[::1]", "198.51.100.7", "172.16.5.4", "[fd00::5]"}
+
+// c38Headers builds proxy-style headers; n is a per-history request counter so that
+// "rotating" variants name a different client on every request.
+func c38Headers(kind, n int) map[string]string {
+	rot := fmt.Sprintf("203.0.113.%d", n%250+1)
+	switch kind {
+	case 2:
+		return map[string]string{"X-Forwarded-For": rot}
+	case 3:
+		return map[string]string{"X-Forwarded-For": fmt.Sprintf("198.18.%d.%d, 10.0.0.9", n/250%250, n%250+1)}
+	case 4:
+		return map[string]string{"X-Real-IP": rot, "Forwarded": "for=" + rot}
+	case 5:
+		return map[string]string{"X-Forwarded-For": "203.0.113.200", "X-Real-IP": "203.0.113.200"}
+	case 6:
+		return map[string]string{"X-Forwarded-For": "unknown, not-an-ip"}
+	case 7:
+		return map[string]string{"X-Forwarded-For": fmt.Sprintf("2001:db8::%x", n+1)}
+	}
+	return nil
+}
 
 var c38Paths = []string{
 	"/ui/api/status", "/ui/api/status", "/ui/api/status/topics", "/ui/api/status/topics/orders", "/ui/api/status/topics/a/b",
@@ -96,14 +125,35 @@ func c38DrawActs(t *rapid.T) []c38Act {
 		a.Port = rapid.IntRange(1024, 1030).Draw(t, "port")
 		a.Creds = rapid.SampledFrom([]int{0, 0, 0, 0, 1, 2, 3, 4, 5, 6}).Draw(t, "creds")
 		a.Tok = rapid.IntRange(0, 7).Draw(t, "tok")
+		a.Hdr = rapid.SampledFrom([]int{0, 0, 0, 2, 2, 3, 4, 5, 6, 7}).Draw(t, "hdr")
+		if a.Kind == "req" || a.Kind == "logout" {
+			if rapid.IntRange(0, 4).Draw(t, "twoCookies") == 3 {
+				a.Cookie = -1
+				a.Cookie2 = rapid.SampledFrom([]int{c38CkToken, c38CkToken, c38CkRandom, c38CkRandom, c38CkEmpty}).Draw(t, "cookie2")
+				a.Tok2 = rapid.IntRange(0, 7).Draw(t, "tok2")
+				a.Swap = rapid.Bool().Draw(t, "swap")
+			}
+		}
 		switch a.Kind {
 		case "req":
 			a.Method = rapid.SampledFrom(c38Methods).Draw(t, "method")
 			a.Path = rapid.SampledFrom(c38Paths).Draw(t, "path")
-			a.Cookie = rapid.SampledFrom([]int{c38CkNone, c38CkToken, c38CkToken, c38CkToken, c38CkToken, c38CkRandom, c38CkOtherName, c38CkMangled, c38CkTokenPlusNoise, c38CkEmpty}).Draw(t, "cookie")
+			ck := rapid.SampledFrom([]int{c38CkNone, c38CkToken, c38CkToken, c38CkToken, c38CkToken, c38CkRandom, c38CkOtherName, c38CkMangled, c38CkTokenPlusNoise, c38CkEmpty}).Draw(t, "cookie")
+			if a.Cookie == -1 {
+				a.Cookie = c38CkPair
+			} else {
+				a.Cookie = ck
+			}
 		case "logout":
 			a.Method = rapid.SampledFrom([]string{"POST", "POST", "POST", "POST", "GET", "DELETE"}).Draw(t, "method")
-			a.Cookie = rapid.SampledFrom([]int{c38CkToken, c38CkToken, c38CkToken, c38CkNone, c38CkRandom, c38CkOtherName}).Draw(t, "cookie")
+			ck := rapid.SampledFrom([]int{c38CkToken, c38CkToken, c38CkToken, c38CkNone, c38CkRandom, c38CkOtherName}).Draw(t, "cookie")
+			if a.Cookie == -1 {
+				a.Cookie = c38CkPair
+			} else {
+				a.Cookie = ck
+			}
+			a.Probe = rapid.Bool().Draw(t, "probe")
+			a.Path = rapid.SampledFrom([]string{"/ui/api/status", "/ui/api/status/topics/orders", "/ui/api/lfs/status", "/ui/api/lfs/orphans"}).Draw(t, "probePath")
 		case "login", "burst":
 			a.Method = rapid.SampledFrom([]string{"POST", "POST", "POST", "POST", "POST", "POST", "POST", "GET", "PUT"}).Draw(t, "method")
 		}
@@ -140,6 +190,7 @@ type c38Tok struct {
 	val       string
 	expiry    time.Time // advertised by the login response
 	loggedOut bool
+	unknown   bool // named in a logout that carried several session cookies: which one was ended is not specified
 }
 
 type c38Spy struct {
@@ -191,9 +242,21 @@ func c38Exec(acts []c38Act, authEnabled bool) *c38Run {
 	mux, isMux := h.(*http.ServeMux)
 	var toks []*c38Tok
 	attempts := map[string][]time.Time{} // processed login attempts per client address
-	rnd := 0
+	loggedOutSets := map[string]bool{}   // cookie value lists a successful logout was performed with
+	cookieKey := func(cs []*http.Cookie) string {
+		var vals []string
+		for _, c := range cs {
+			if c.Name == sessionCookieName {
+				vals = append(vals, c.Value)
+			}
+		}
+		return strings.Join(vals, "\x00")
+	}
 
+	reqSeq := 0
+	hdrKind := 0 // set by the step being executed
 	do := func(method, target, remote, body string, cookies []*http.Cookie) (*httptest.ResponseRecorder, string) {
+		reqSeq++
 		ctx, cancel := context.WithTimeout(context.Background(), 3*time.Second)
 		defer cancel()
 		var rd io.Reader
@@ -202,6 +265,9 @@ func c38Exec(acts []c38Act, authEnabled bool) *c38Run {
 		}
 		req := httptest.NewRequest(method, target, rd).WithContext(ctx)
 		req.RemoteAddr = remote
+		for k, v := range c38Headers(hdrKind, reqSeq) {
+			req.Header.Set(k, v)
+		}
 		for _, c := range cookies {
 			req.AddCookie(c)
 		}
@@ -216,6 +282,9 @@ func c38Exec(acts []c38Act, authEnabled bool) *c38Run {
 	live := func(tk *c38Tok, now time.Time) (alive, dontCare bool) {
 		if tk.loggedOut {
 			return false, false
+		}
+		if tk.unknown {
+			return false, true
 		}
 		if now.Equal(tk.expiry) {
 			return false, true // the statement does not say which side the exact instant belongs to
@@ -235,8 +304,41 @@ func c38Exec(acts []c38Act, authEnabled bool) *c38Run {
 		case c38CkEmpty:
 			return []*http.Cookie{{Name: sessionCookieName, Value: ""}}, false, false, "empty-cookie", nil
 		case c38CkRandom:
-			rnd++
-			return []*http.Cookie{{Name: sessionCookieName, Value: fmt.Sprintf("Zm9yZ2VkLXRva2VuLW5ldmVyLWlzc3VlZC0%08d", rnd)}}, false, false, "forged-cookie", nil
+			return []*http.Cookie{{Name: sessionCookieName, Value: fmt.Sprintf("Zm9yZ2VkLXRva2VuLW5ldmVyLWlzc3VlZC0%08d", a.Tok)}}, false, false, "forged-cookie", nil
+		case c38CkPair:
+			// two cookies of the session name: an issued token (or a forged value when none exists yet)
+			// and a second value; all dead -> must be rejected, all live -> answered, mixed -> which one
+			// counts is not specified (no assertion), see also loggedOutSets
+			one := func(kind, idx int) (*http.Cookie, string, bool, bool) {
+				if kind == c38CkToken && len(toks) > 0 {
+					tk := toks[idx%len(toks)]
+					al, dc := live(tk, now)
+					st := "dead"
+					if dc {
+						st = "unspecified"
+					} else if al {
+						st = "live"
+					}
+					return &http.Cookie{Name: sessionCookieName, Value: tk.val}, st, al, dc
+				}
+				if kind == c38CkEmpty {
+					return &http.Cookie{Name: sessionCookieName, Value: ""}, "empty", false, false
+				}
+				return &http.Cookie{Name: sessionCookieName, Value: fmt.Sprintf("Zm9yZ2VkLXBhaXItbmV2ZXItaXNzdWVkLTAw%08d", idx)}, "forged", false, false
+			}
+			c1, s1, al1, dc1 := one(c38CkToken, a.Tok)
+			c2, s2, al2, dc2 := one(a.Cookie2, a.Tok2)
+			if a.Swap {
+				c1, c2, s1, s2 = c2, c1, s2, s1
+			}
+			cs = []*http.Cookie{c1, c2}
+			class = "two-session-cookies:" + s1 + "+" + s2
+			switch {
+			case dc1 || dc2 || al1 != al2:
+				return cs, false, true, class, nil
+			default:
+				return cs, al1, false, class, nil
+			}
 		}
 		tk = pick()
 		if tk == nil {
@@ -272,6 +374,10 @@ func c38Exec(acts []c38Act, authEnabled bool) *c38Run {
 		remote := fmt.Sprintf("%s:%d", ip, a.Port)
 		key := strings.Trim(ip, "[]")
 		body, right := c38Body(a.Creds)
+		hdrKind = a.Hdr
+		if a.Hdr != 0 {
+			run.classes = append(run.classes, "login-with-proxy-headers")
+		}
 		rec, _ := do(a.Method, "/ui/api/auth/login", remote, body, nil)
 		var sess *http.Cookie
 		for _, c := range rec.Result().Cookies() {
@@ -332,6 +438,57 @@ func c38Exec(acts []c38Act, authEnabled bool) *c38Run {
 		toks = append(toks, &c38Tok{val: sess.Value, expiry: exp})
 	}
 
+	reqStep := func(a c38Act) {
+		hdrKind = a.Hdr
+		now := time.Now()
+		cs, expectLive, dontCare, class, _ := cookieFor(a, now)
+		before := spy.calls
+		rec, pattern := do(a.Method, a.Path, fmt.Sprintf("%s:%d", c38Addrs[a.Addr], a.Port), "", cs)
+		protected := strings.HasPrefix(pattern, "/ui/api/") && !strings.HasPrefix(pattern, "/ui/api/auth/")
+		if !isMux {
+			protected = strings.HasPrefix(a.Path, "/ui/api/status") && a.Path != "/ui/api/status/" || a.Path == "/ui/api/metrics"
+		}
+		run.trace = append(run.trace, fmt.Sprintf("req(%s %s,%s)=%d", a.Method, a.Path, class, rec.Code))
+		if !protected {
+			run.classes = append(run.classes, "req-unprotected-path")
+			return
+		}
+		run.classes = append(run.classes, "req-protected:"+class)
+		if authEnabled && len(cs) > 0 && loggedOutSets[cookieKey(cs)] {
+			run.nt = true
+			run.classes = append(run.classes, "req-with-the-cookies-of-a-completed-logout")
+			if rec.Code != http.StatusUnauthorized {
+				run.failf("%s %s (pattern %q) answered %d although it carries exactly the session cookies (%s) a successful POST logout was performed with", a.Method, a.Path, pattern, rec.Code, class)
+			}
+			return
+		}
+		if class == "token-expired" || class == "token-logged-out" {
+			run.nt = true
+		}
+		if dontCare {
+			return
+		}
+		rejected := rec.Code == http.StatusUnauthorized || (rec.Code == http.StatusServiceUnavailable && strings.Contains(rec.Body.String(), "ui auth disabled"))
+		if !authEnabled {
+			if !rejected {
+				run.failf("auth is not configured but %s %s (pattern %q) answered %d", a.Method, a.Path, pattern, rec.Code)
+			}
+			return
+		}
+		if expectLive {
+			if rejected {
+				run.failf("%s %s (pattern %q) with a live session token (%s) was rejected with %d at %s", a.Method, a.Path, pattern, class, rec.Code, now.Format(time.RFC3339))
+			}
+			return
+		}
+		if rec.Code != http.StatusUnauthorized {
+			run.failf("%s %s (pattern %q) with %s answered %d instead of 401 at %s; body %q", a.Method, a.Path, pattern, class, rec.Code, now.Format(time.RFC3339), c38Short(rec.Body.String()))
+		}
+		if spy.calls != before {
+			run.failf("%s %s with %s: the protected handler ran (metadata store was read) although the request was answered %d", a.Method, a.Path, class, rec.Code)
+		}
+	}
+
 	for _, a := range acts {
 		if run.fail != "" {
 			break
@@ -359,52 +516,35 @@ func c38Exec(acts []c38Act, authEnabled bool) *c38Run {
 		case "logout":
 			now := time.Now()
 			cs, _, _, class, tk := cookieFor(a, now)
+			hdrKind = a.Hdr
 			rec, _ := do(a.Method, "/ui/api/auth/logout", fmt.Sprintf("%s:%d", c38Addrs[a.Addr], a.Port), "", cs)
 			run.trace = append(run.trace, fmt.Sprintf("logout(%s,%s)=%d", a.Method, class, rec.Code))
-			if tk != nil && a.Method == "POST" && rec.Code == 200 {
-				tk.loggedOut = true
-				run.classes = append(run.classes, "logout-of-issued-token")
+			if a.Method == "POST" && rec.Code == 200 {
+				if tk != nil {
+					tk.loggedOut = true
+					run.classes = append(run.classes, "logout-of-issued-token")
+				}
+				if key := cookieKey(cs); key != "" {
+					loggedOutSets[key] = true
+				}
+				if a.Cookie == c38CkPair {
+					run.classes = append(run.classes, "logout-with-two-session-cookies")
+					for _, c := range cs {
+						for _, t2 := range toks {
+							if t2.val == c.Value && !t2.loggedOut {
+								t2.unknown = true
+							}
+						}
+					}
+				}
+			}
+			if a.Probe {
+				probe := a
+				probe.Kind, probe.Method = "req", "GET"
+				reqStep(probe)
 			}
 		case "req":
-			now := time.Now()
-			cs, expectLive, dontCare, class, _ := cookieFor(a, now)
-			before := spy.calls
-			rec, pattern := do(a.Method, a.Path, fmt.Sprintf("%s:%d", c38Addrs[a.Addr], a.Port), "", cs)
-			protected := strings.HasPrefix(pattern, "/ui/api/") && !strings.HasPrefix(pattern, "/ui/api/auth/")
-			if !isMux {
-				protected = strings.HasPrefix(a.Path, "/ui/api/status") && a.Path != "/ui/api/status/" || a.Path == "/ui/api/metrics"
-			}
-			run.trace = append(run.trace, fmt.Sprintf("req(%s %s,%s)=%d", a.Method, a.Path, class, rec.Code))
-			if !protected {
-				run.classes = append(run.classes, "req-unprotected-path")
-				continue
-			}
-			run.classes = append(run.classes, "req-protected:"+class)
-			if class == "token-expired" || class == "token-logged-out" {
-				run.nt = true
-			}
-			if dontCare {
-				continue
-			}
-			rejected := rec.Code == http.StatusUnauthorized || (rec.Code == http.StatusServiceUnavailable && strings.Contains(rec.Body.String(), "ui auth disabled"))
-			if !authEnabled {
-				if !rejected {
-					run.failf("auth is not configured but %s %s (pattern %q) answered %d", a.Method, a.Path, pattern, rec.Code)
-				}
-				continue
-			}
-			if expectLive {
-				if rejected {
-					run.failf("%s %s (pattern %q) with a live session token (%s) was rejected with %d at %s", a.Method, a.Path, pattern, class, rec.Code, now.Format(time.RFC3339))
-				}
-				continue
-			}
-			if rec.Code != http.StatusUnauthorized {
-				run.failf("%s %s (pattern %q) with %s answered %d instead of 401 at %s; body %q", a.Method, a.Path, pattern, class, rec.Code, now.Format(time.RFC3339), c38Short(rec.Body.String()))
-			}
-			if spy.calls != before {
-				run.failf("%s %s with %s: the protected handler ran (metadata store was read) although the request was answered %d", a.Method, a.Path, class, rec.Code)
-			}
+			reqStep(a)
 		}
 	}
 	return run
